@@ -549,8 +549,8 @@ def lastKind : Tick → String
   | .feedEnded _ => "feed-ended"
   | .process _ ev a => if a.fatal then "fatal" else match ev with | .shutdown => "shutdown" | _ => "other"
 
-def runDrop (s : EnSt) (k : Nat) : List String :=
-  let start : EngA := ⟨s.init, 1⟩
+def runDropFrom (start : EngA) (history : List (Engine.Event × Audit.Ask)) (k : Nat) : List String :=
+  let s : EnSt := ⟨emptyEng, ⟨emptyEng, 0⟩, [], [], history⟩
   let a := runAudited auditRunner worldTx (dropEnv k) 0 start .active (Chan.new, []) s.history
   -- whatever is still queued is read after the run
   let got := a.world.2 ++ a.world.1.queue
@@ -567,10 +567,27 @@ def runDrop (s : EnSt) (k : Nat) : List String :=
     s!"off_recv {(off.world.2 ++ off.world.1.queue).length}" ] ++
   [ "same_state 1" ]
 
+def runDrop (s : EnSt) (k : Nat) : List String := runDropFrom ⟨s.init, 1⟩ s.history k
+
+/-- (configuration shape) the first part of `rundrop2 mode J K`: events 0..J through the runner WITHOUT audit
+on the engine whose snapshot consumed number 0; result: the engine it leaves, its last record, the number of
+events it consumed (one per number it used, minus the one of a feed-ended record) -/
+def preRun (s : EnSt) (j : Nat) : EngA × Tick × Nat :=
+  let r := runPlain auditRunner ⟨s.init, 1⟩ (s.history.take j)
+  let fe := match r.2 with | .feedEnded _ => 1 | _ => 0
+  (r.1, r.2, r.1.seq - 1 - fe)
+
+/-- `rundrop2`: audit off, then on, on the same engine: the second snapshot takes the next number, the audited
+run goes on one after it with the rest of the feed -/
+def runDrop2 (s : EnSt) (j k : Nat) : List String :=
+  let (e1, l1, c1) := preRun s j
+  [ "pre_last " ++ lastKind l1, s!"pre_end_seq {e1.seq}", s!"snap2_seq {e1.seq}" ] ++
+  runDropFrom ⟨e1.eng, e1.seq + 1⟩ (s.history.drop c1) k
+
 /-- spec of `rundrop`: the engine's end state, last record and sequence counter do not depend on the audit
 channel at all; the consumer holds exactly the first records, in order, up to the drop -/
-def runDropSpec (s : EnSt) (k : Nat) : List String :=
-  let start : EngA := ⟨s.init, 1⟩
+def runDropSpecFrom (start : EngA) (history : List (Engine.Event × Audit.Ask)) (k : Nat) : List String :=
+  let s : EnSt := ⟨emptyEng, ⟨emptyEng, 0⟩, [], [], history⟩
   let n := runPlain auditRunner start s.history
   let ticks := runTicks auditRunner start s.history
   let got := ticks.take k
@@ -578,6 +595,15 @@ def runDropSpec (s : EnSt) (k : Nat) : List String :=
     "tx_state " ++ (if k < ticks.length then "D" else "A"),
     "run_last " ++ lastKind n.2, s!"end_seq {n.1.seq}" ] ++ obsAny "a_" n.1.eng ++
   [ "off_last " ++ lastKind n.2, s!"off_end_seq {n.1.seq}", "off_tx_state D", "off_recv 0", "same_state 1" ]
+
+def runDropSpec (s : EnSt) (k : Nat) : List String := runDropSpecFrom ⟨s.init, 1⟩ s.history k
+
+/-- spec of `rundrop2`: the un-audited first run uses one number per event it processes (and one for a
+feed-ended record), the second snapshot the next one, and the audited run is `rundrop` from there -/
+def runDrop2Spec (s : EnSt) (j k : Nat) : List String :=
+  let (e1, l1, c1) := preRun s j
+  [ "pre_last " ++ lastKind l1, s!"pre_end_seq {e1.seq}", s!"snap2_seq {e1.seq}" ] ++
+  runDropSpecFrom ⟨e1.eng, e1.seq + 1⟩ (s.history.drop c1) k
 
 /-! #### `runprod`: the run closure of `SystemBuilder::init` -/
 
@@ -735,6 +761,10 @@ def model : Drv St where
         match k.toNat? with
         | some k => if mode == "sync" || mode == "async" then (s, runDrop e k) else bad
         | none => bad
+      | ["rundrop2", mode, j, k], some e =>
+        match j.toNat?, k.toNat? with
+        | some j, some k => if mode == "sync" || mode == "async" then (s, runDrop2 e j k) else bad
+        | _, _ => bad
       | ["runprod", mode, r], some e =>
         match r.toNat? with
         | some r => if mode == "sync" || mode == "async" then (s, runProd e r) else bad
@@ -788,6 +818,10 @@ def spec : Drv SpecSt where
         match k.toNat? with
         | some k => if mode == "sync" || mode == "async" then (s, runDropSpec e k) else bad
         | none => bad
+      | ["rundrop2", mode, j, k], some e =>
+        match j.toNat?, k.toNat? with
+        | some j, some k => if mode == "sync" || mode == "async" then (s, runDrop2Spec e j k) else bad
+        | _, _ => bad
       | ["runprod", mode, r], some e =>
         match r.toNat? with
         | some _ => if mode == "sync" || mode == "async" then (s, runProdSpec e) else bad
